@@ -14,7 +14,7 @@ import (
 // means). Two stored sequences are folded one after the other into the same group accumulator;
 // the stored sequences are frozen (a query must not modify them).
 //
-//zx:harness prop=C06+C04+C05 id=S tier=quick env=sum shard=scale:2,e:2,nA:3,nB:2,hasAsOf:2 ne=2 NA=2 NB=1 spread=2 nuntil=4 thorough.NA=4 thorough.NB=2 thorough.spread=3 thorough.nuntil=6 thorough.ne=4 thorough.shard=scale:2,e:4,nA:5,nB:3,hasAsOf:2
+//zx:harness prop=C06+C04+C05 id=S tier=quick env=sum shard=scale:2,e:2,nA:3,nB:2,hasAsOf:2 ne=2 NA=2 NB=1 spread=2 nuntil=4 thorough.NA=4 thorough.NB=2 thorough.spread=3 thorough.nuntil=6 thorough.ne=4 thorough.nres=2 thorough.shard=scale:2,e:4,nA:5,nB:3,hasAsOf:2,res1s:2
 func zxC06SubMerge() {
 	l := zxLayoutFor()
 	r := time.Duration(1 << 30)
